@@ -174,7 +174,7 @@ func (tok *Token) findSlot() (uint, error) {
 	tokenConf := tok.tokenConf
 	slots, err := tok.ctx.GetSlotList(false)
 	if err != nil {
-		return 0, nil
+		return 0, err
 	}
 	candidates := make([]uint, 0, len(slots))
 	for _, slot := range slots {
